@@ -1,7 +1,51 @@
-(* Props/C19.v — property C19: theorems only (see Props/C01.v for the conventions). The statement of
-   this property is decided by the monitor on real traces; what is proved here is only what is listed. *)
+(* Props/C19.v — property C19: theorems only (see Props/C01.v for the conventions).
+   Proved from the table regenerated from the source on every run (gen/GenTermCtx.v: every way through every exclusive
+   section of kvElection.mu, as operations on the claim, the run's context and the context stored in e.termCancel; machine
+   in TermCtx.v): the context handed to the promotion callback is a child of the term's context; between two sections no
+   term context is live while the instance does not claim leadership and none is out of the library's reach; a section
+   that finds the instance leading and leaves it leading touches neither context. PARTIAL with respect to the property:
+   "promptly" is "within the section that ends the term", the callback's own goroutine and the cancellation by the
+   caller of Start (which ends the context before the claim is dropped) are decided by the monitor on real traces. *)
 From LE Require Import Base Ev World Mon Mon2 Proto Consts GenGuards SimBasics SimOwn SimCallbacks SimTheorems GuardFacts Timing Witness.
+From LE Require Import TermCtx GenTermCtx TermCtxInv TermCtxNow.
 Open Scope Z_scope.
+
+(* cancelled once the term ends, for every cause: whatever sections of the current source run, in whatever order and
+   number, interleaved with cancellations of the run by the caller of Start - at every point between two of them: no context
+   created for a term is live unless the instance claims leadership; no live term context has been dropped from
+   e.termCancel; a live term context belongs to a live run *)
+Theorem C19_partial_no_live_term_context_without_the_claim :
+  forall evs, (forall p, In (EvPath p) evs -> In p term_paths /\ tp_ctor p = false) ->
+  forall s, tinv s = true ->
+  forall pre post s1, evs = (pre ++ post)%list -> trun s pre = Some s1 ->
+  (t_il s1 = false -> t_cur s1 <> Some true) /\ t_stale s1 = false /\ (t_cur s1 = Some true -> t_run s1 = true).
+Proof. exact term_ctx_now. Qed.
+Print Assumptions C19_partial_no_live_term_context_without_the_claim.
+
+(* not cancelled while the instance still leads that term: no section that starts and ends with the claim up cancels,
+   clears or replaces the term's context, or cancels the run *)
+Theorem C19_partial_leading_term_context_untouched :
+  forall p, In p term_paths -> tp_ctor p = false -> forall s s', tinv s = true -> exec_path s (tp_ops p) = Some s' ->
+  t_il s = true -> t_il s' = true -> t_cur s' = t_cur s /\ t_run s' = t_run s.
+Proof. exact leading_term_untouched_now. Qed.
+Print Assumptions C19_partial_leading_term_context_untouched.
+
+Theorem C19_promotion_context_is_child_of_term_context : promote_ctx_is_term_child = true.
+Proof. exact promote_ctx_is_term_child_now. Qed.
+Print Assumptions C19_promotion_context_is_child_of_term_context.
+
+Theorem C19_constructor_establishes_invariant :
+  forall p, In p term_paths -> tp_ctor p = true -> exists s0, exec_path tstate0 (tp_ops p) = Some s0 /\ tinv s0 = true.
+Proof. exact ctor_now. Qed.
+Print Assumptions C19_constructor_establishes_invariant.
+
+Theorem C19_table_nonvacuous :
+  existsb tp_ctor term_paths = true /\
+  existsb (fun p => existsb (fun o => match o with TNewTerm => true | _ => false end) (tp_ops p)) term_paths = true /\
+  existsb (fun p => existsb (fun o => match o with TCancelTerm => true | _ => false end) (tp_ops p) &&
+                    existsb (fun o => match o with TSetLeader false => true | _ => false end) (tp_ops p)) term_paths = true.
+Proof. exact term_table_nontrivial. Qed.
+Print Assumptions C19_table_nonvacuous.
 
 Theorem C19_callbacks_alternate :
   forall tr, admits base0 tr = true -> at_every_position tr (fun b te => forall m, ~ In 801 (mon_C08 b m te) /\ ~ In 802 (mon_C08 b m te)).
